@@ -230,20 +230,23 @@ structure ArcArgs (ν : Type) where
   attrs : List ν
 
 /-- What the parser needs from `f32` and `lyon_geom`:
-`ofLexeme` = value of an accepted lexeme; `add`/`sub` = `f32` `+`/`-`;
+`ofLexeme` = value of an accepted lexeme; `add`/`sub`/`mul`/`one` = `f32` arithmetic;
 `arcStraight` = `SvgArc::is_straight_line`;
-`arc pos a` = the `(ctrl, to, interpolated attributes)` list that
-`svg_arc.to_arc().for_each_quadratic_bezier_with_t` hands to the closure, or `none` if that code
-panics (`cast::<f32,i32>(NaN).unwrap()`); `pos` (number of characters not yet pulled from the
-iterator) is passed along only so that the correspondence driver can instantiate `arc` from
-observed behaviour — for lyon it is a function of the `ArcArgs` alone. -/
+`arc pos a` = the `(ctrl, to, range.end)` list that
+`SvgArc{from, to, radii: (rx, ry), x_rotation: Angle::degrees(rot), flags}.to_arc()
+.for_each_quadratic_bezier_with_t` hands to the closure, or `none` if that code panics
+(`cast::<f32,i32>(NaN).unwrap()`).  `pos` (number of characters not yet pulled from the
+iterator) is not used by lyon — `arc` is a function of the `ArcArgs` alone; the correspondence
+driver instantiates it with the arc model of C13 (`Model/Geom/SvgArc.lean`). -/
 structure Num (ν : Type) where
   zero : ν
+  one : ν
   add : ν → ν → ν
   sub : ν → ν → ν
+  mul : ν → ν → ν
   ofLexeme : List Char → ν
   arcStraight : ArcArgs ν → Bool
-  arc : Nat → ArcArgs ν → Option (List (Pt ν × Pt ν × List ν))
+  arc : Nat → ArcArgs ν → Option (List (Pt ν × Pt ν × ν))
 
 variable {ν : Type}
 
@@ -402,6 +405,11 @@ def runEdge (m : PM (EdgeOut ν)) (cmd : Char) (st : St ν) (s : Src) : StepOut 
   | .ok o s' => .cont (o.2.after cmd) s' (emitAt s' o.1)
   | .err e s' => .fail e st.needEnd s' []
 
+/-- `interpolated_attributes[i] = prev_attributes[i] * (1.0 - range.end) + attribute_buffer[i] *
+range.end` -/
+def interpAttrs (N : Num ν) (prev cur : List ν) (t : ν) : List ν :=
+  List.zipWith (fun p c => N.add (N.mul p (N.sub N.one t)) (N.mul c t)) prev cur
+
 /-- what the arc branch sends to the builder once its arguments are parsed -/
 def arcEmit (N : Num ν) (na : Nat) (a : ArcArgs ν) (cmd : Char) (st : St ν) (s' : Src) :
     StepOut ν :=
@@ -415,7 +423,8 @@ def arcEmit (N : Num ν) (na : Nat) (a : ArcArgs ν) (cmd : Char) (st : St ν) (
       -- out of bounds in the first callback if the buffer was shorter
       if !qs.isEmpty && decide (a.prevAttrs.length < na) then .panic s' []
       else .cont ({ st with cur := a.to, attrs := a.attrs }.after cmd) s'
-                 (emitAt s' (qs.map (fun q => Call.quad q.1 q.2.1 q.2.2)))
+                 (emitAt s' (qs.map (fun q =>
+                    Call.quad q.1 q.2.1 (interpAttrs N a.prevAttrs a.attrs q.2.2))))
 
 def runArc (N : Num ν) (na : Nat) (cmd : Char) (st : St ν) (s : Src) : StepOut ν :=
   match cmdAArgs N na cmd.isLower st s with
